@@ -27,7 +27,7 @@ REQUIRED = [
     "judged:sketch-core-shell", "judged:sketch-grid-levels", "judged:shape-core-shell", "judged:shape-grid-levels",
     "judged:file:delete-by-address", "judged:file:chop-location", "judged:file:round-delete",
     "nontrivial:nx-ny-tiers-pairwise-different", "placed:post-transform", "reached:core-op-judged",
-    "reached:shell-op-judged",
+    "reached:shell-op-judged", "judged:deleted-before-the-entity-was-added", "judged:three-level-sketch-core-shell",
 ]
 RULE = (
     "stack family: base = cb.Grid nx x ny (1..5 x 1..5, random rectangle, placed by random rotate/translate/scale) or "
@@ -53,7 +53,7 @@ ASSUMPTIONS = [
     "outer curve: circle |p-c| = R (disks, annulus), stadium dist(p, c1c2) = R (Oval), rounded rectangle / ellipse "
     "(spline sketches; rings: outer radii r + w), sphere (Hemisphere), revolved outer edge p2-p3 (RevolvedRing); an "
     "entity touches it when one of its vertices is on it within 1e-6 R (interior vertices sit at <= 0.8 R)",
-    "WrappedDisk is judged on its three radial grid levels only (its inherited core/shell do not claim a partition); "
+    "WrappedDisk: three radial grid levels; its core / shell are judged on (not) touching the outer curve, not as a partition (the middle ring is neither); "
     "QuarterSplineRing-type sketches may report core = None (taken as empty)",
     "written file: vertices printed with 8 decimals, matched within 1e-6 (1 + |coordinate|); a hex is located by the "
     "centre of its 8 vertices, its local axes by the mean of the 4 parallel edges (hexconv, OpenFOAM user guide)",
@@ -182,6 +182,7 @@ def _gen_write(rng, base, con, dims):
         ndel = rng.randint(1, min(3, nblocks - 1))
     w["delete"] = [list(c) for c in rng.sample(cells, ndel)]
     w["extra"] = rng.choice([None, None, "before", "after"])
+    w["delete_first"] = rng.random() < 0.3  # the addressed operations are deleted before the entity is added (assembly is lazy)
     if ndel:
         w["mode"] = "all"
     else:
@@ -231,7 +232,8 @@ def gen_round_case(rng, what=None, cls=None):
     if rng.random() < 0.5:
         u = rng.random()
         write = {"n": rng.randint(1, 6), "delete": [[rng.choice(["core", "shell", "grid", "operations"]), rng.randrange(10**6)]
-                                                     for _ in range(0 if u < 0.15 else 1 if u < 0.7 else 2)]}
+                                                     for _ in range(0 if u < 0.15 else 1 if u < 0.7 else 2)],
+                 "delete_first": rng.random() < 0.3}
     return {"fam": "round", "what": "shape", "spec": spec, "post": post, "write": write}
 
 
@@ -507,11 +509,16 @@ def run_stack(ctx, case, cb):
             box.chop(ax, count=2)
     if w.get("extra") == "before":
         mesh.add(box)
+    if w.get("delete_first") and deleted:
+        ctx.count("judged:deleted-before-the-entity-was-added")
+        for (k, l, n) in deleted:
+            mesh.delete(grid[k][l][n])
     mesh.add(entity)
     if w.get("extra") == "after":
         mesh.add(box)
-    for (k, l, n) in deleted:
-        mesh.delete(grid[k][l][n])
+    if not w.get("delete_first"):
+        for (k, l, n) in deleted:
+            mesh.delete(grid[k][l][n])
     path = util.tmpfile("c19")
     got, err = util.write_outcome(mesh, path, nblocks=len(lat.index))
     try:
@@ -584,7 +591,7 @@ def _judge_sketch(ctx, cls, sketch, oracle):
     faces = list(sketch.faces)
     lvl = {id(f): oracle.level(np.asarray(f.point_array, dtype=float)) for f in faces}
     top = oracle.nlevels - 1
-    if cls != "WrappedDisk":
+    if True:
         try:
             core, shell = sketch.core, sketch.shell
         except Exception as err:  # noqa: BLE001
@@ -593,7 +600,8 @@ def _judge_sketch(ctx, cls, sketch, oracle):
         core = [] if core is None else list(core)
         shell = [] if shell is None else list(shell)
         ctx.count("judged:sketch-core-shell")
-        if _ids(core + shell) != _ids(faces):
+        # (WrappedDisk has a middle ring that is neither: its core / shell are judged on touching only, not as a partition)
+        if cls != "WrappedDisk" and _ids(core + shell) != _ids(faces):
             ctx.violation(f"sketch-core-shell-not-a-partition:{cls}", f"{cls}: {len(core)} core + {len(shell)} shell faces do not "
                           f"cover the {len(faces)} faces each once")
             return False
@@ -603,6 +611,11 @@ def _judge_sketch(ctx, cls, sketch, oracle):
                           f"have a vertex on the outer curve; core = faces {[faces.index(f) for f in core]}, shell = "
                           f"{[faces.index(f) for f in shell]}, faces touching the outer curve: {[i for i, f in enumerate(faces) if lvl[id(f)] == top]}")
             return False
+        if cls == "WrappedDisk":
+            ctx.count("judged:three-level-sketch-core-shell")
+            if not shell or not core:
+                ctx.violation(f"sketch-core-or-shell-empty:{cls}", f"{cls}: core {len(core)} faces, shell {len(shell)} faces")
+                return False
         bad = [faces.index(f) for f in shell if lvl[id(f)] != top]
         if bad:
             ctx.violation(f"sketch-shell-not-touching:{cls}", f"{cls} spec={_short(oracle.spec)}: shell faces {bad} have no vertex on the outer curve")
@@ -720,9 +733,15 @@ def run_round(ctx, case, cb):
     expected = [xr.op_points(op) for op in ops if id(op) not in [id(t) for t in targets]]
     gone = [xr.op_points(op) for op in targets]
     mesh = cb.Mesh()
-    mesh.add(shape)
-    for op in targets:
-        mesh.delete(op)
+    if w.get("delete_first") and targets:
+        ctx.count("judged:deleted-before-the-entity-was-added")
+        for op in targets:
+            mesh.delete(op)
+        mesh.add(shape)
+    else:
+        mesh.add(shape)
+        for op in targets:
+            mesh.delete(op)
     path = util.tmpfile("c19r")
     got, err = util.write_outcome(mesh, path, nblocks=len(ops))
     try:
